@@ -60,16 +60,20 @@ func filterRelevantUpdates(proxy *model.Proxy, req *model.PushRequest) *model.Pu
 		changed = true
 	}
 
-	// If the proxy's service updated, need push for it.
-	if len(proxy.ServiceTargets) > 0 && req.ConfigsUpdated != nil {
-		for _, svc := range proxy.ServiceTargets {
-			key := model.ConfigKey{
-				Kind:      kind.ServiceEntry,
-				Name:      string(svc.Service.Hostname),
-				Namespace: svc.Service.Attributes.Namespace,
-			}
-			if req.ConfigsUpdated.Contains(key) {
-				relevantUpdates.Insert(key)
+	// If the proxy's service updated, need push for it. The previous service targets count as well: a
+	// service that was deleted (or no longer selects the proxy) is already gone from ServiceTargets,
+	// which were refreshed for this push, while the proxy still holds the inbound configuration for it.
+	if (len(proxy.ServiceTargets) > 0 || len(proxy.PrevServiceTargets) > 0) && req.ConfigsUpdated != nil {
+		for _, targets := range [][]model.ServiceTarget{proxy.ServiceTargets, proxy.PrevServiceTargets} {
+			for _, svc := range targets {
+				key := model.ConfigKey{
+					Kind:      kind.ServiceEntry,
+					Name:      string(svc.Service.Hostname),
+					Namespace: svc.Service.Attributes.Namespace,
+				}
+				if req.ConfigsUpdated.Contains(key) {
+					relevantUpdates.Insert(key)
+				}
 			}
 		}
 	}
